@@ -31,6 +31,7 @@ ASSUMPTIONS = [
     "the oracle's Gram/covariance algebra (numpy matmul, eigh) is trusted",
 ]
 RULE = RULE + " " + forms.RULE_SUFFIX
+RULE = RULE + " " + 'One case in 4000: plain FPS on 2^21 + a few items of 8 numbers (more than 2^24 numbers), judged by a streaming oracle.'
 
 KINDS = ("gauss", "lattice", "lattice", "near_lattice", "clustered", "dup_rows", "dup_cols", "scaled", "lowrank", "uniform", "collinear")
 
